@@ -388,6 +388,9 @@ func newWorldCfg(c config) *world {
 	if c.Icpt == "lower" {
 		opts = append(opts, electricpb.WithModeOption(resource.WithIDInterceptor(strings.ToLower)))
 	}
+	if c.Icpt == "ns" {
+		opts = append(opts, electricpb.WithModeOption(resource.WithIDInterceptor(nsPrefix)))
+	}
 	if len(c.ActiveWritable) > 0 {
 		opts = append(opts, electricpb.WithActiveModeOption(resource.WithWritablePaths(&traits.ElectricMode{}, c.ActiveWritable...)))
 	}
